@@ -22,6 +22,10 @@ FILES = os.path.join(tlc.WORK, "lex-files")
 
 HOLE = "\0"
 FF, NONASCII, DEL = "\x0c", "é", "\x7f"
+# a byte that is not valid UTF-8: as a character of a str it is the lone surrogate that Python's "surrogateescape"
+# error handler maps to the byte 0xFF when the text is written to a file (so from_file gets an undecodable file, the
+# string entry points get an unencodable character).  TLC and the JSON files only see the placeholder BADBYTE_PH.
+BADBYTE, BADBYTE_PH = "\udcff", "\ue0ff"
 
 
 def _ctx(name, ver, dt, line, fname, fpre="", nover=False):
@@ -67,7 +71,7 @@ CTX_IDX = {c["name"]: i + 1 for i, c in enumerate(CONTEXTS)}
 
 def _syms(spec):
     """'a b inf' -> symbols; the names SP FF NA DEL NL stand for the characters"""
-    names = {"SP": " ", "FF": FF, "NA": NONASCII, "DEL": DEL, "NL": "\n", "TAB": "\t", "EMPTYSTR": '""'}
+    names = {"SP": " ", "FF": FF, "NA": NONASCII, "DEL": DEL, "NL": "\n", "TAB": "\t", "EMPTYSTR": '""', "XB": BADBYTE_PH, "NUL": "\0", "CR": "\r"}
     return [names.get(t, t) for t in spec.split(" ")]
 
 
@@ -225,7 +229,8 @@ LINES = [
     ("gfa2", "X\tcustom\tfield\tyy:B:c,1,-2"),
 ]
 LREPS_QUICK = "TAB SP FF NA * $"
-LREPS_THOROUGH = "TAB SP FF NA * $ 0 A + - , : NL"
+LREPS_THOROUGH = "TAB SP FF NA * $ 0 A + - , : NL XB NUL CR"
+LBYTES = "XB NUL CR"        # bytes that are not text, placed in front of / behind every field of every valid line
 LALPH = ("S H E P # X TAB * $ + 1 : SP", 3, 4)
 
 # documents (version, dialect, lines) and single-line variants (doc index, op, k, line)
@@ -394,11 +399,18 @@ TEXTS = ["", "\n", " ", "\t", "\n\n", "S\tA\t*\n", "S\tA\t*\n\nS\tB\t*", "S\tA\t
          "S\tA\t*\txx:J:" + "[" * 3000 + "]" * 3000, "S\tA\t*\txx:Z:" + "a" * 100000,
          "U\tu1\tu2 a\nU\tu2\tu1", "O\to1\to2+\nO\to2\to1+", "U\tu1\tu1", "S\ta\t4\t*\nF\ta\tx+\t0\t2\t0\t2\t*\tVN:Z:1",
          "L\tA\t+\tB\t+\t*\nE\t*\ta+\tb+\t0\t2\t0\t2\t*", "S\tA\t*\nS\ta\t4\t*", "\x00", "S\tA\t*\x00", NONASCII,
-         "#", "#\t\t\t", "X", "X\t", "\tS\tA\t*", " S\tA\t*"]
+         "#", "#\t\t\t", "X", "X\t", "\tS\tA\t*", " S\tA\t*",
+         # files / strings that are not UTF-8 text: a Latin-1 byte in a tag, a lone 0xFF, a UTF-16 byte order mark,
+         # a truncated multi-byte sequence, undecodable bytes in a comment, a name, a sequence
+         "S\tA\t*\txx:Z:caf\udce9", BADBYTE, "\udcff\udcfeS\tA\t*", "S\tA\t*\txx:Z:\udcc3", "# " + BADBYTE + "\nS\tA\t*",
+         "S\t" + BADBYTE + "\t*", "S\tA\tAC" + BADBYTE, "S\tA\t*\n" + BADBYTE + "\n", "H\tVN:Z:1.0" + BADBYTE,
+         # lone CR (a line break for a file opened with universal newlines, a character for the string entry points), NUL
+         "\r", "S\tA\t*\r", "S\tA\t*\rS\tB\t*", "S\tA\t*\rS\tA\t*", "S\tA\t*\r\r\nS\tB\t*", "\rS\tA\t*", "S\tA\r\t*",
+         "S\tA\t*\x00\nS\tB\t*", "\x00\n\x00", "S\tA\t*\n\x00"]
 
 # strings passed to the string-taking API (C07)
 API_IDS = ["A", "a", "l1", "e1", "p", "o", "u", "g", "zz", "*", "", " ", "A+", "A,B", "a b", "\t", "\n", NONASCII,
-           "A" * 5000, "+", "-", "$", "0", "1", "-1", "None", "%s", "{}", "co"]
+           "A" * 5000, "+", "-", "$", "0", "1", "-1", "None", "%s", "{}", "co", "1" * 5000, BADBYTE]
 API_DOCS = [("gfa1", "S\tA\tACGT\nS\tB\t*\nL\tA\t+\tB\t+\t2M\tID:Z:l1\nC\tA\t+\tB\t-\t0\t*\nP\tp\tA+,B+\t2M\nH\txx:i:1\n# c"),
             ("gfa2", "S\ta\t4\tACGT\nS\tb\t6\t*\nE\te1\ta+\tb+\t2\t4$\t0\t2\t2M\nG\tg\ta+\tb-\t10\t5\nF\ta\tx+\t0\t2\t0\t2\t*\n"
                      "O\to\ta+ e1+ b+\nU\tu\ta e1 g o\nX\tcustom\t1\nH\txx:i:1")]
@@ -410,7 +422,8 @@ API_LINES = [("gfa1", "S\tA\tACGT\tLN:i:4\txx:Z:a b"), ("gfa1", "L\tA\t+\tB\t-\t
 # undefined well-formed tag, predefined tags, the `name` alias, "*", "" and malformed names
 API_FIELDS = ["@first", "@last", "@tag", "zz", "LN", "VN", "TS", "ID", "name", "*", "", "x", "xxx", "1x", "x_", "na me",
               NONASCII, "\t", "a" * 300]
-API_VALUES = ["1", "abc", "", "*", "a\tb", "a\nb", NONASCII, "1_0", "+", "A+,B+", "2M", "[1]", "{", "5$", "$"]
+API_VALUES = ["1", "abc", "", "*", "a\tb", "a\nb", NONASCII, "1_0", "+", "A+,B+", "2M", "[1]", "{", "5$", "$", "1" * 5000,
+              "1" * 5000 + "M", BADBYTE]
 API_DTYPES = ["i", "Z", "J", "H", "B", "f", "A", "q", "", "ii", "position_gfa2", "generic"]
 
 
@@ -438,6 +451,26 @@ HIST_SETTERS = ["set", "attr"]           # line.set(fieldname, value) / line.<fi
 # back = line.set(field, <the old text of the field>)
 HIST_TAILS = [["rm", "str"], ["disc", "str"], ["rmseg", "str"], ["validate", "lvalidate", "str", "lstr"],
               ["get", "back", "rm", "str"], ["str", "rmseg", "validate"]]
+
+
+# removal histories on nested groups (MC_Lex layer nest; the documents are built by TLC): operations as in HIST_TAILS,
+# rmid = gfa.rm(<identifier of the line>)
+NEST_TAILS = [["rmid", "str", "validate"], ["rm", "str"], ["disc", "str", "validate"], ["validate", "lvalidate", "str", "lstr"]]
+
+# version queue (MC_Lex layer queue): lines that wait for the version decision, a line that is refused in some of the
+# contexts, a decider.  Which combination is refused for which reason is not stated here: only the result classes count.
+QUEUE = dict(
+    q=["L\ta\t+\tb\t+\t*", "P\tp\ta+,b+\t*", "C\ta\t+\tb\t+\t0\t*", "L\ta\t+\tb\t-\t10M\nP\tp\ta+,b-\t10M",
+       "P\tp\ta+,b+\t*\nL\ta\t+\tb\t+\t*", "X\tcustom\n# c\nL\ta\t+\tb\t+\t*"],
+    bad=["L\ta\t+\tb\t+", "C\ta\t+\tb\t+\tx\t*", "P\tp\tb+,c+\t*", "L\ta\t+\tb\t+\t*", "P\tx\ta+,b+\t*",
+         "E\t*\ta+\tb+\t0\t2\t0\t2\t*", "S\ta", "L\ta\t+\tb\t+\t*\txx:i:x", "P\tp\ta+\t*,*", "H\tVN:Z:3.0",
+         "S\ta\t*\tLN:i:x"],
+    dec=["S\ta\t*", "S\tx\t*", "S\tp\t*", "H\tVN:Z:1.0", "", "S\ta\t*\nS\tb\t*", "H\tVN:Z:2.0", "S\ta\t1\t*"])
+
+# over-long records (MC_Lex layer long): (character, length of the run that replaces a field)
+# (prefix, character, length of the run, suffix): the field (value of a tag) becomes prefix + run + suffix
+LONGS = [("", "1", 5000, ""), ("", "A", 5000, ""), ("", "1", 5000, "M"), ("", "1", 5000, "$"), ("", "1", 5000, "+"),
+         ("1,", "1", 5000, ""), ("c,", "1", 5000, ""), ("[", "1", 5000, "]"), ("", "0", 5000, "1")]
 
 
 # ---------------------------------------------------------------------------------------------
@@ -530,7 +563,9 @@ def build_catalog(tier, layers, shorter=0, only=None):
     api = dict(docs=[dict(ver=d["ver"], lines=[[_chars(f) for f in ln.split("\t")] for ln in d["lines"]]) for d in HIST_DOCS],
                values=[_chars(v) for v in HIST_VALUES], nsetters=len(HIST_SETTERS), tails=HIST_TAILS)
     data = dict(ctx=ctx, alph=alph, cat=cat, reps=reps, recs=recs, lines=lines, lreps=lreps, templates=templates,
-                hdr=hdr, api=api,
+                hdr=hdr, api=api, nest=dict(tails=NEST_TAILS), queue={k: [_chars(x) for x in v] for k, v in QUEUE.items()},
+                longs=[dict(pre=_chars(a), sym=c, n=n, suf=_chars(b)) for a, c, n, b in LONGS],
+                lbytes=_syms(LBYTES),
                 lalph=dict(syms=[_chars(s) for s in _syms(lsy)], n=lnq if q else lnt), docs=docs, variants=variants,
                 layers=list(layers))
     walk(data)
@@ -556,7 +591,7 @@ def generate(tier, layers, name, shorter=0, only=None):
     if rc != 0 or "No error has been found" not in out:
         raise MachineryError("MC_Lex failed:\n" + "\n".join(out.splitlines()[-40:]))
     st = tlc.stats(out)
-    chars = data["chars"]
+    chars = [BADBYTE if ch == BADBYTE_PH else ch for ch in data["chars"]]
     dec = lambda idx: "".join(chars[i - 1] for i in idx)
     seen, cases = set(), []
     hist = {}
@@ -567,7 +602,7 @@ def generate(tier, layers, name, shorter=0, only=None):
             for m in cf.finditer(out)]
     rest = cf.sub("", out)
     parsed = [("CF", v) for v in flat]
-    for head in ("CL", "CD", "CT", "CH"):
+    for head in ("CL", "CD", "CT", "CH", "CG", "CX"):
         parsed += [(head, tlc.tla_value(raw)) for raw in tlc.parse_tuples(rest, head)]
     for head, v in parsed:
         if True:
@@ -587,6 +622,19 @@ def generate(tier, layers, name, shorter=0, only=None):
                          api=["hist", d["ver"], "\n".join(d["lines"]), d["lines"][v[2] - 1], v[3], dec(v[4]),
                               HIST_SETTERS[v[5] - 1], HIST_TAILS[v[6] - 1], d["seg"]])
                 key = ("h", v[1], v[2], v[3], c["api"][5], v[5], v[6])
+            elif head == "CG" and v[2] > 0:     # removal history on a document built by TLC
+                doc = ["\t".join(dec(f) for f in ln) for ln in v[1]]
+                c = dict(kind="h", ctx=0, ver="gfa2", dia="standard", s="", lines=[], mc="either",
+                         api=["hist", None, "\n".join(doc), doc[v[2] - 1], 0, "", "none", NEST_TAILS[v[3] - 1], "1"])
+                key = ("g", tuple(doc), v[2], v[3])
+            elif head == "CG":                  # the document itself: every entry point
+                c = dict(kind="t", ctx=0, ver="any", dia="standard", mc="either", lines=[],
+                         s="\n".join("\t".join(dec(f) for f in ln) for ln in v[1]))
+                key = ("t", c["s"])
+            elif head == "CX":                  # run-length encoded over-long record
+                c = dict(kind="t", ctx=0, ver="any", dia="standard", mc="either", lines=[],
+                         s=dec(v[2]) + dec(v[3]) * v[4] + dec(v[5]))
+                key = ("t", c["s"])
             else:
                 c = dict(kind="t", ctx=0, ver="any", dia="standard", s=dec(v[2]), lines=[], mc="either")
                 key = ("t", c["s"])
@@ -628,6 +676,11 @@ def _site(e):
         e = e.__cause__ or e.__context__
         seen += 1
     return site
+
+
+def _short(x):
+    """repr of a string for a label (the case itself keeps the full text)"""
+    return repr(x) if len(x) <= 40 else "%s...(%d chars)" % (repr(x[:20]), len(x))
 
 
 class Runner:
@@ -704,7 +757,7 @@ class Runner:
         try:
             with open(self.path, "w", encoding="utf-8", newline="", errors="surrogateescape") as f:
                 f.write(text)
-            have_file = "\x00" not in text
+            have_file = True
         except (OSError, UnicodeError):
             have_file = False
         for k in levels:
@@ -754,6 +807,14 @@ class Runner:
                         if st == "ok":
                             r.append(self.written(g))
                         rows.append(r); lv.append(k); cfg.append("from_file/%s/%s" % (ver, dia))
+                        if ver is None:     # the same through an existing instance
+                            st, g = self.call(G.Gfa, vlevel=k, dialect=dia)
+                            r = [st]
+                            if st == "ok":
+                                r.append(self.call(g.read_file, self.path)[0])
+                                r.append(self.call(g.validate)[0])
+                                r.append(self.written(g))
+                            rows.append(r); lv.append(k); cfg.append("read_file/%s/%s" % (ver, dia))
         return rows, lv, cfg
 
     # -- C07 rows for the string-taking API
@@ -769,7 +830,7 @@ class Runner:
                 r.append(self.call(g.rm, ident)[0])
                 r.append(self.written(g))
                 r.append(self.call(g.validate)[0])
-            rows.append(r); lv.append(k); cfg.append("Gfa.line/segment/try_get_line/try_get_segment/rm(%r)" % ident[:20])
+            rows.append(r); lv.append(k); cfg.append("Gfa.line/segment/try_get_line/try_get_segment/rm(%s)" % _short(ident))
         return rows, lv, cfg
 
     def api_line_rows(self, ver, text, field, connect):
@@ -803,7 +864,7 @@ class Runner:
                     r.append(self.call(ln.get, field)[0])
                     r.append(self.call(ln.validate)[0])
                     r.append(self.written(ln))
-                rows.append(r); lv.append(k); cfg.append("line.set(%r,%r);get;validate;str" % (field, val))
+                rows.append(r); lv.append(k); cfg.append("line.set(%r,%s);get;validate;str" % (field, _short(val)))
             for dt in API_DTYPES:
                 st, ln = self.call(fresh)
                 r = [st]
@@ -824,7 +885,8 @@ class Runner:
     def hist_rows(self, ver, doc, text, i, value, setter, tail, seg):
         G = self.gfapy
         rows, lv, cfg = [], [], []
-        label = "hist %r: field %d %s %r; %s" % (text, i, setter, value, ",".join(tail))
+        label = ("hist %r: field %d %s %r; %s" % (text, i, setter, value, ",".join(tail)) if setter != "none" else
+                 "hist %r in %r: %s" % (text, doc, ",".join(tail)))
         for k in (0, 1, 2, 3):
             st, g = self.call(G.Gfa, doc, vlevel=k, version=ver)
             r = [st]
@@ -837,15 +899,17 @@ class Runner:
                 if st != "ok" or not found or i > len(names):
                     r.append("na" if st == "ok" else st)
                 else:
-                    name = names[i - 1]
-                    old = text.split("\t")[i] if i < len(text.split("\t")) else ""
+                    name = names[i - 1] if i else None
+                    fields = text.split("\t")
+                    old = fields[i] if i < len(fields) else ""
                     r.append("ok")
                     if setter == "set":
                         r.append(self.call(ln.set, name, value)[0])
-                    else:
+                    elif setter == "attr":
                         r.append(self.call(setattr, ln, name, value)[0])
                     for op in tail:
                         f = {"rm": lambda: g.rm(ln), "disc": ln.disconnect, "rmseg": lambda: g.rm(seg),
+                             "rmid": lambda: g.rm(fields[1] if len(fields) > 1 else ""),
                              "validate": g.validate, "lvalidate": ln.validate, "get": lambda: ln.get(name),
                              "back": lambda: ln.set(name, old)}.get(op)
                         if op == "str":
@@ -1110,6 +1174,14 @@ def _coverage(out, tier, cov, layers, shorter):
         hub_documents=len(hub_texts()),
         header_tag_lines=dict(names=HDR["names"], datatypes=HDR["types"], values=HDR["values"], before=HDR["pre"],
                               after=HDR["suf"]) if "hdr" in layers else None,
+        nested_group_removal=dict(documents="built by MC_Lex: kind O/U x 1..3 groups x cycle/chain x segments none/last/all x "
+                                  "outer set x 3 arrival orders", tails=NEST_TAILS) if "nest" in layers else None,
+        version_queue_documents=dict(queued=QUEUE["q"], refused_in_context=QUEUE["bad"], deciders=QUEUE["dec"],
+                                     arrangements=["queued,refused,decider", "refused,queued,decider",
+                                                   "queued,decider,refused"]) if "queue" in layers else None,
+        overlong_fields=[dict(prefix=a, character=c, length=n, suffix=b) for a, c, n, b in LONGS] if "long" in layers else None,
+        non_text_bytes_at_field_boundaries=_syms(LBYTES),
+        undecodable_byte="XB = 0xFF (lone surrogate U+DCFF in the str, written to the file with surrogateescape)",
         api_histories=dict(documents=[d["lines"] for d in HIST_DOCS], generic_values=HIST_VALUES, setters=HIST_SETTERS,
                            tails=HIST_TAILS, per_field_values="valid and invalid representatives of the line layer",
                            histories=cov.kinds.get("h", 0)) if "hist" in layers else None,
@@ -1170,7 +1242,7 @@ def check_c07(out, tier, seed):
     def extra(first):
         t = text_cases(first)
         return t + api_cases(first + len(t))
-    layers = ("enum", "mut", "line", "doc", "xdoc", "lmut", "lenum", "hdr", "hist")
+    layers = ("enum", "mut", "line", "doc", "xdoc", "lmut", "lenum", "hdr", "hist", "nest", "queue", "long")
     _run(out, tier, "C07", layers, (0, 1, 2, 3), extra)
     if tier != "quick":
         selftest()
